@@ -272,7 +272,7 @@ def _armijo(chk):
     specs = {0: {"invariant": make(holder), "types": {"best_x": "vec"}, "ghost_init": ghost_init}}
     call, proxy = symx.instrument(ar, AR, "_ArmijoLineSearch.__call__", specs)
 
-    def body_for(max_delta_mode):
+    def body_for(max_delta_mode, unrolled=False):
         def body(ctx):
             proxy.ctx = ctx
             res = ctx.ufun("residual", ["vec"], "vec", may_raise=True)
@@ -286,6 +286,9 @@ def _armijo(chk):
             # precondition (from the option validators / property wording)
             ctx.assume(z3.And(zv(red) > 0, zv(red) < 1, zv(mina) > 0, zv(mina) <= 1, zv(c) > 0, zv(c) <= 1,
                               zv(cur) >= 0), silent=True)
+            if unrolled:
+                # bounded stand-in without any loop contract: alpha_reduction^2 < min_alpha allows at most two trials
+                ctx.assume(zv(red) * zv(red) < zv(mina), silent=True)
             if max_delta_mode == "finite":
                 md = ctx.real("max_delta")
                 ctx.assume(zv(md) > 0, silent=True)
@@ -298,7 +301,7 @@ def _armijo(chk):
             holder.update(current_norm=cur, res=res, nrm=nrm, x0=x0, min_alpha=mina)
             ctx.reached("armijo: precondition satisfiable")
             try:
-                x, n, a = call(self, x0=x0, delta=delta, current_norm=cur)
+                x, n, a = (ar._ArmijoLineSearch.__call__ if unrolled else call)(self, x0=x0, delta=delta, current_norm=cur)
             except BackendError:
                 ctx.reached("armijo: BackendError")
                 ctx.check("armijo: only BackendError escapes", True)
@@ -354,6 +357,22 @@ def _armijo(chk):
             chk.obl(f"{name} [max_delta={mode}]", "K2 path VC", [fn_label], "B1 z3 (B2 cvc5 on unknown)",
                     lambda name=name, mode=mode: explore(mode).verdict(name),
                     sample="pre(0<alpha_reduction<1, 0<min_alpha<=1, 0<armijo_c<=1, current_norm>=0) AND path => " + name)
+    # ---- bounded stand-in, independent of the loop's local variables (survives refactorings the loop contract does not) ----
+    bex = {}
+
+    def explore_b(mode):
+        if mode not in bex:
+            e = Explorer(fn_label, None, max_paths=4000)
+            e.run(body_for(mode, unrolled=True))
+            bex[mode] = e
+        return bex[mode]
+    for mode in ("finite", "none"):
+        for name in names[:5]:
+            chk.obl(f"[bounded: <= 2 back-tracking trials, real loop unrolled, no loop contract] {name} [max_delta={mode}]",
+                    "K2 path VC (bounded unrolling)", [fn_label], "B1 z3 (B2 cvc5 on unknown)",
+                    lambda name=name, mode=mode: explore_b(mode).verdict(name))
+    chk.bounded.append({"what": "Armijo line search with the real loop unrolled", "bound": "alpha_reduction^2 < min_alpha "
+                        "(at most two trials); all other values symbolic", "counted_as_proved": False})
     chk.cover("armijo: return reachable", "armijo: return" in explore("finite").covers)
     chk.cover("armijo: BackendError reachable", "armijo: BackendError" in explore("finite").covers)
 
